@@ -1,13 +1,27 @@
 (** C02 — Concept lookup returns the least formal concept containing the query.
-    Context level: full strength.  Lattice level (lattice[items], lattice(props)): the
-    lookup returns the member whose extent is the closure ([_partial]: that the lookup
-    cannot miss needs the completeness of the enumeration, C03). *)
+
+    "For any non-empty collection of objects, context[items] is the pair (A'', A'), and for any
+    non-empty collection of properties the pair (B', B''): always a formal concept whose extent
+    (resp. intent) contains the query and is contained in that of every other concept containing
+    it; the closure is extensive, monotone and idempotent.  lattice[items] and
+    lattice(properties) return the very member object of the lattice that has that extent and
+    intent, lattice[i] the i-th member in iteration order and lattice[()] the top concept."
+
+    Context level: the loops of [getitem_raw] against the comprehension-defined closure.
+    Lattice level: END-TO-END.  Every lattice theorem quantifies over the fuels, the context [c]
+    and the value [L] returned by the model of [Context.lattice] ([build_lattice]); the only
+    hypotheses are [wf_ctx c], enough fuel for the derivation loops and
+    [build_lattice fuel dfuel (relation_new c) = Ok L] (satisfiable for every context:
+    [C03_terminates]).  Members of the lattice are addressed by their position:
+    [concept_at L k x] says that [x] is the k-th member in iteration order. *)
 From Coq Require Import ZArith List Bool.
-From Concepts Require Import Base.Res Base.PyInt Base.BitSet Spec.FCA Spec.Context
+From Concepts Require Import Base.Res Base.PyInt Base.BitSet Spec.FCA Spec.Context Spec.LatticeSpec
   Model.Matrices Model.ContextApi Model.Lattice Proofs.Matrices Proofs.ContextApi Proofs.Closure
-  Proofs.LatticeBasics.
+  Proofs.LatticeBasics Proofs.BuildLattice Proofs.LatticeQueries Proofs.Assemble.
 Import ListNotations.
 Open Scope Z_scope.
+
+(** * context[items] *)
 
 Theorem C02_getitem_objects : forall fuel c gs,
   wf_ctx c -> gs <> [] -> Forall (fun g => (g < nG c)%nat) gs -> (Nat.max (nG c) (nM c) <= fuel)%nat ->
@@ -18,6 +32,16 @@ Theorem C02_getitem_properties : forall fuel c ms,
   wf_ctx c -> ms <> [] -> Forall (fun m => (m < nM c)%nat) ms -> (Nat.max (nG c) (nM c) <= fuel)%nat ->
   getitem_raw fuel (relation_new c) (map inr ms) = Ok (upM c (of_list ms), clM c (of_list ms)).
 Proof. exact getitem_properties. Qed.
+
+(** a label that is neither an object nor a property (or a mixed collection) raises KeyError *)
+Theorem C02_getitem_unknown : forall fuel k items,
+  ~ object_items (nG (mc k)) items -> ~ property_items (nM (mc k)) items ->
+  getitem_raw fuel k items = Raise KeyError.
+Proof. exact getitem_raw_unknown. Qed.
+
+Theorem C02_intension_unknown : forall fuel c gs, ~ Forall (fun g => (g < nG c)%nat) gs ->
+  intension fuel (relation_new c) gs = Raise KeyError.
+Proof. exact intension_unknown. Qed.
 
 Theorem C02_is_concept_objects : forall c A, in_range (nG c) A -> is_concept c (clO c A) (upO c A).
 Proof. exact concept_of_objects. Qed.
@@ -43,15 +67,145 @@ Proof. exact clM_monotone. Qed.
 Theorem C02_idempotent_properties : forall c B, in_range (nM c) B -> clM c (clM c B) = clM c B.
 Proof. exact clM_idempotent. Qed.
 
-(** the extent -> member mapping returns the (first) member with exactly that extent,
-    and raises KeyError exactly when there is none *)
-Theorem C02_mapping_lookup_partial : forall exts e i, mapping_get exts e = Ok i ->
+(** * the extent -> member mapping *)
+
+(** on any list: returns the (first) position holding exactly that extent; KeyError iff there is none *)
+Theorem C02_mapping_lookup_sound : forall exts e i, mapping_get exts e = Ok i ->
   (i < length exts)%nat /\ nth_extent exts i = e.
 Proof. exact mapping_get_ok. Qed.
 Theorem C02_mapping_lookup_total : forall exts e, In e exts -> exists i, mapping_get exts e = Ok i.
 Proof. exact mapping_get_in. Qed.
 
+(** on the lattice: the lookup of any closed extent finds THE member with that extent *)
+Theorem C02_mapping_total : forall fuel dfuel c L A,
+  wf_ctx c -> (Nat.max (nG c) (nM c) <= dfuel)%nat -> build_lattice fuel dfuel (relation_new c) = Ok L ->
+  closedO c A ->
+  exists k x, mapping_get (l_exts L) A = Ok k /\ concept_at L k x /\ c_extent x = A /\ c_intent x = upO c A.
+Proof.
+  intros fuel dfuel c L A Hwf Hd HB.
+  exact (mapping_total c L dfuel (build_lattice_ok fuel dfuel c L Hwf Hd HB) Hd A).
+Qed.
+
+Theorem C02_member_unique : forall fuel dfuel c L k x k' x',
+  wf_ctx c -> (Nat.max (nG c) (nM c) <= dfuel)%nat -> build_lattice fuel dfuel (relation_new c) = Ok L ->
+  concept_at L k x -> concept_at L k' x' -> c_extent x = c_extent x' -> k = k'.
+Proof.
+  intros fuel dfuel c L k x k' x' Hwf Hd HB.
+  exact (mapping_unique c L (build_lattice_ok fuel dfuel c L Hwf Hd HB) k x k' x').
+Qed.
+
+Theorem C02_mapping_not_closed : forall fuel dfuel c L A,
+  wf_ctx c -> (Nat.max (nG c) (nM c) <= dfuel)%nat -> build_lattice fuel dfuel (relation_new c) = Ok L ->
+  ~ closedO c A -> mapping_get (l_exts L) A = Raise KeyError.
+Proof.
+  intros fuel dfuel c L A Hwf Hd HB.
+  exact (mapping_get_not_closed c L (build_lattice_ok fuel dfuel c L Hwf Hd HB) A).
+Qed.
+
+(** * lattice[items] *)
+
+Theorem C02_lattice_getitem_objects : forall fuel dfuel c L gs,
+  wf_ctx c -> (Nat.max (nG c) (nM c) <= dfuel)%nat -> build_lattice fuel dfuel (relation_new c) = Ok L ->
+  gs <> [] -> Forall (fun g => (g < nG c)%nat) gs ->
+  exists k x, lattice_getitem dfuel L (map inl gs) = Ok k /\ concept_at L k x
+    /\ c_extent x = clO c (of_list gs) /\ c_intent x = upO c (of_list gs).
+Proof.
+  intros fuel dfuel c L gs Hwf Hd HB.
+  exact (lattice_getitem_objects c L dfuel (build_lattice_ok fuel dfuel c L Hwf Hd HB) Hwf Hd gs).
+Qed.
+
+Theorem C02_lattice_getitem_properties : forall fuel dfuel c L ms,
+  wf_ctx c -> (Nat.max (nG c) (nM c) <= dfuel)%nat -> build_lattice fuel dfuel (relation_new c) = Ok L ->
+  ms <> [] -> Forall (fun m => (m < nM c)%nat) ms ->
+  exists k x, lattice_getitem dfuel L (map inr ms) = Ok k /\ concept_at L k x
+    /\ c_extent x = upM c (of_list ms) /\ c_intent x = clM c (of_list ms).
+Proof.
+  intros fuel dfuel c L ms Hwf Hd HB.
+  exact (lattice_getitem_properties c L dfuel (build_lattice_ok fuel dfuel c L Hwf Hd HB) Hwf Hd ms).
+Qed.
+
+(** lattice[()] is the last member, and that member is the top concept (all objects) *)
+Theorem C02_lattice_getitem_nil_top : forall fuel dfuel c L,
+  wf_ctx c -> (Nat.max (nG c) (nM c) <= dfuel)%nat -> build_lattice fuel dfuel (relation_new c) = Ok L ->
+  exists x, lattice_getitem dfuel L [] = Ok (length (l_concepts L) - 1)%nat
+    /\ concept_at L (length (l_concepts L) - 1) x
+    /\ c_extent x = ones (nG c) /\ c_intent x = upO c (ones (nG c)).
+Proof.
+  intros fuel dfuel c L Hwf Hd HB.
+  exact (lattice_getitem_nil_top c L dfuel (build_lattice_ok fuel dfuel c L Hwf Hd HB) Hd).
+Qed.
+
+Theorem C02_lattice_getitem_unknown : forall fuel dfuel c L items,
+  wf_ctx c -> (Nat.max (nG c) (nM c) <= dfuel)%nat -> build_lattice fuel dfuel (relation_new c) = Ok L ->
+  items <> [] -> ~ object_items (nG c) items -> ~ property_items (nM c) items ->
+  lattice_getitem dfuel L items = Raise KeyError.
+Proof.
+  intros fuel dfuel c L items Hwf Hd HB.
+  exact (lattice_getitem_unknown c L dfuel items (build_lattice_ok fuel dfuel c L Hwf Hd HB)).
+Qed.
+
+(** * lattice(properties) — any list of property labels, the empty one included *)
+
+Theorem C02_lattice_call : forall fuel dfuel c L ms,
+  wf_ctx c -> (Nat.max (nG c) (nM c) <= dfuel)%nat -> build_lattice fuel dfuel (relation_new c) = Ok L ->
+  Forall (fun m => (m < nM c)%nat) ms ->
+  exists k x, lattice_call dfuel L ms = Ok k /\ concept_at L k x
+    /\ c_extent x = upM c (of_list ms) /\ c_intent x = clM c (of_list ms).
+Proof.
+  intros fuel dfuel c L ms Hwf Hd HB.
+  exact (lattice_call_spec c L dfuel (build_lattice_ok fuel dfuel c L Hwf Hd HB) Hd ms).
+Qed.
+
+Theorem C02_lattice_call_nil : forall fuel dfuel c L,
+  wf_ctx c -> (Nat.max (nG c) (nM c) <= dfuel)%nat -> build_lattice fuel dfuel (relation_new c) = Ok L ->
+  lattice_call dfuel L [] = Ok (length (l_concepts L) - 1)%nat.
+Proof.
+  intros fuel dfuel c L Hwf Hd HB.
+  exact (lattice_call_nil c L dfuel (build_lattice_ok fuel dfuel c L Hwf Hd HB) Hd).
+Qed.
+
+Theorem C02_lattice_call_unknown : forall fuel dfuel c L ms,
+  wf_ctx c -> (Nat.max (nG c) (nM c) <= dfuel)%nat -> build_lattice fuel dfuel (relation_new c) = Ok L ->
+  ~ Forall (fun m => (m < nM c)%nat) ms -> lattice_call dfuel L ms = Raise KeyError.
+Proof.
+  intros fuel dfuel c L ms Hwf Hd HB.
+  exact (lattice_call_unknown c L dfuel (build_lattice_ok fuel dfuel c L Hwf Hd HB) ms).
+Qed.
+
+(** * lattice[i] — the i-th member in iteration order; its [index] attribute is i *)
+
+Theorem C02_lattice_getitem_int : forall L i x, nth_concept L i = Ok x <-> concept_at L i x.
+Proof. exact nth_concept_iff. Qed.
+
+Theorem C02_lattice_getitem_int_range : forall L i, (length (l_concepts L) <= i)%nat ->
+  nth_concept L i = Raise IndexError.
+Proof. exact nth_concept_out_of_range. Qed.
+
+Theorem C02_lattice_getitem_int_index : forall fuel dfuel c L i x,
+  wf_ctx c -> (Nat.max (nG c) (nM c) <= dfuel)%nat -> build_lattice fuel dfuel (relation_new c) = Ok L ->
+  nth_concept L i = Ok x -> c_index x = i /\ is_concept c (c_extent x) (c_intent x).
+Proof.
+  intros fuel dfuel c L i x Hwf Hd HB Hx. apply nth_concept_iff in Hx.
+  pose proof (build_lattice_ok fuel dfuel c L Hwf Hd HB) as OK.
+  exact (conj (index_is_position c L OK i x Hx) (concept_at_is_concept c L OK i x Hx)).
+Qed.
+
+(** * witnesses: the hypotheses are satisfiable and the lookups compute *)
+
 Example C02_witness :
   let c := mkCtx 3 3 [5; 3; 6] in
   getitem_raw 4 (relation_new c) [inl 0%nat; inl 1%nat] = Ok (3, 1).
 Proof. vm_compute. reflexivity. Qed.
+
+(** objects 0..3 with rows {0,1}, {1,2}, {2,3}, {0,1,2}: eight concepts, not a Boolean lattice *)
+Example C02_witness_lattice :
+  let c := mkCtx 4 4 [3; 6; 12; 7] in
+  wf_ctx c /\ (Nat.max (nG c) (nM c) <= 4)%nat /\
+  exists L, build_lattice 20 4 (relation_new c) = Ok L /\
+    (lattice_getitem 4 L [inl 0%nat; inl 1%nat], lattice_getitem 4 L [inr 1%nat], lattice_getitem 4 L [],
+     lattice_call 4 L [1%nat; 2%nat], lattice_call 4 L [], lattice_call 4 L [7%nat])
+    = (Ok 5%nat, Ok 5%nat, Ok 7%nat, Ok 4%nat, Ok 7%nat, Raise KeyError).
+Proof.
+  cbv zeta. split; [apply wf_ctxb_sound; vm_compute; reflexivity|]. split; [apply le_by_leb; vm_compute; reflexivity|].
+  apply witness_intro. vm_compute. reflexivity.
+Qed.
